@@ -112,3 +112,19 @@ End Sorts.
 
 Arguments IFromRef {key}. Arguments ISort {key}. Arguments IReset {key}. Arguments IJoin {key}.
 Arguments ITake {key}. Arguments IDistinctOn {key}. Arguments IOther {key}.
+
+(* ---- the tail of fold_sql_transforms: `if !self.main_relation { make sure that its SELECT includes the columns from the
+   sort }` -- the FIRST Select of the relation's result gets every column of the relation's final sorting that it does not
+   select yet, appended in sorting order, so that readers of the CTE can ORDER BY them.  Columns are ids. *)
+Section Widen.
+  Fixpoint widen (sel : list nat) (sort_cols : list nat) : list nat :=
+    match sort_cols with
+    | [] => sel
+    | c :: r => widen (if existsb (Nat.eqb c) sel then sel else sel ++ [c]) r
+    end.
+  Definition select_after (main : bool) (sel sort_cols : list nat) : list nat := if main then sel else widen sel sort_cols.
+  (* A set operation (UNION ALL / EXCEPT / INTERSECT) or a recursive CTE pairs that first SELECT with the SELECT of its other
+     operand, which sort inference leaves alone: the operands keep equal widths iff the widening adds nothing *)
+  Definition arity_kept (main : bool) (sel sort_cols : list nat) : bool :=
+    Nat.eqb (length (select_after main sel sort_cols)) (length sel).
+End Widen.
